@@ -49,6 +49,12 @@ func c09UploadStep(anyCut bool) {
 	} else {
 		prev = nil
 	}
+	// an earlier attempt that was cut inside the header (with fork preservation on) leaves an empty info side file
+	preserve := vBool("server_preserves_forks")
+	if vBool("empty_info_side_file_left_by_an_earlier_cut") {
+		vNSNames = append(vNSNames, "/r/up/.info_f.bin")
+		vNSData = append(vNSData, []byte{})
+	}
 	data := vBytesEach("data", 3) // the bytes the client sends in this attempt (the rest of the file)
 	stream := c02UploadStream([]byte("f.bin"), data)
 	dataStart := len(stream) - len(data)
@@ -71,7 +77,7 @@ func c09UploadStep(anyCut bool) {
 	} else {
 		ft.TransferSize = refU32(len(stream))
 	}
-	err := UploadHandler(r, final, ft, &vNSStore{}, vLogger(), false)
+	err := UploadHandler(r, final, ft, &vNSStore{}, vLogger(), preserve)
 
 	fi, pi := vNSFind(final), vNSFind(partial)
 	if finalExists {
